@@ -181,11 +181,16 @@ def tlc_trace(module, trace_path, tag, timeout=3000, cfgfile=None, strict=False)
     if rej:
         return dict(accepted=False, line=int(rej.group(1)), total=int(rej.group(2)), states=states, out=out,
                     wall=time.time() - t0)
-    # evaluation errors while judging an event (e.g. malformed field) are rejections of that event
-    m2 = re.search(r"The error occurred when TLC was evaluating the nested", out)
-    if m2 and m:
-        return dict(accepted=False, line=states, total=nlines, states=states, out=out, wall=time.time() - t0,
-                    evalerror=True)
+    # An evaluation error while judging an event (the implementation returned something the
+    # specification's operators are not even defined on, e.g. a hash of the wrong size) is a
+    # rejection of that event: TLC prints the behaviour up to the state whose successor failed,
+    # and state k is "k - 1 lines consumed", so the event being judged is line k.
+    ks = [int(x) for x in re.findall(r"^State (\d+):", out, re.M)]
+    if ks and ("The behavior up to this point is" in out) and ("Parsing or semantic analysis failed" not in out):
+        k = max(ks)
+        if 1 <= k <= nlines:
+            return dict(accepted=False, line=k, total=nlines, states=max(states, k), out=out,
+                        wall=time.time() - t0, evalerror=True)
     raise ToolError("TLC failed on %s (%s):\n%s" % (trace_path, module, out[-3000:]))
 
 
